@@ -21,10 +21,10 @@ META = dict(
               "flag logic and lexer rules regenerated from the C++/flex text + exact correspondence of the extracted "
               "model with the opensmt binary fed through a pipe writer that controls every read boundary",
     level_text="Theorems of Properties_C20.v: chunking_irrelevant (all parsers, all chunkings, by induction), "
-               "pipe_frames_eq_file_commands / pipe_eq_file / exit_stops_both for every syntactically valid script whose string "
-               "literals satisfy the stated guards, reader_buffer_invariants; pipe_eq_file_refuted and "
-               "pipe_eq_file_lone_backslash_refuted give the valid scripts on which the unchanged tree differs between modes "
-               "(known findings). The per-character flag update of Interpret::interpPipe and the start-condition rules of the "
+               "pipe_eq_file_current (every syntactically valid script, every chunking, no guard on string literals: holds for the "
+               "tree since fix e573377 + 21cfae2), pipe_frames_eq_file_commands / pipe_eq_file / exit_stops_both, "
+               "reader_buffer_invariants; pipe_eq_file_refuted and pipe_eq_file_lone_backslash_refuted are kept as history of "
+               "the tree before the fixes (vacuous now). The per-character flag update of Interpret::interpPipe and the start-condition rules of the "
                "lexer are regenerated from the source on every run and the theorems re-proved over them.",
     level_note="Trusted: Coq kernel, extraction (ExtrOcamlBasic, ExtrOcamlString), ocaml/pipe_driver.ml, translate/pipe_flags.py "
                "(statement-level translator for the flag update; token-level comparison of the rest of interpPipe with the "
